@@ -1269,6 +1269,25 @@ def gen_c12(tier, seed):
         ops.append('r:f:%x' % pc)
         ops += pre + ['k:%x' % r.choice([0, 1000, 1000000, 20000000]), 'st', 'st']
         g.add(ops, kind)
+    # every divide / modulo opcode x divisor x dividend corner value (systematic, not sampled)
+    for name in ['DIV', 'MOD']:
+        for sfx in 'WHB':
+            for form in '23':
+                for a in (0, 1, 0xff, 0xffff, 0xffffffff, 0x100, 0x10000, 0x80, 0x8000, 0x80000000):
+                    for b in (0, 0x80, 0x8000, 0x80000000, 0xff, 0xffff, 0xffffffff, 1):
+                        o = OP[name + sfx + form]
+                        regs = hostile_regs()
+                        regs[0], regs[1] = a, b
+                        code = [o] + reg(0) + reg(1) + (reg(2) if form == '3' else []) + [0x70] * 4
+                        ops = ['ld:%x:%s' % (PC0, hexs(code))] + ['r:%x:%x' % (i2, regs[i2]) for i2 in sorted(regs)] + ['r:f:%x' % PC0, 'st']
+                        g.add(ops, 'divide-systematic')
+    # chains of expanded-type prefixes of every kind and length (instruction buffer overrun)
+    for pfx in range(0xe0, 0xf0):
+        for nrep in (1, 2, 3, 8, 24, 29, 30, 31, 32, 33, 40, 64):
+            code = [0x84] + [pfx] * nrep + [0x40, 0x41] + [0x70] * 4
+            regs = hostile_regs()
+            ops = ['ld:%x:%s' % (PC0, hexs(code))] + ['r:%x:%x' % (i2, regs[i2]) for i2 in sorted(regs)] + ['r:f:%x' % PC0, 'dc', 'st']
+            g.add(ops, 'prefix-chain')
     # host-side bus reads at any address and width, and host input calls with any argument
     for i in range(300 if tier == 'quick' else 20000):
         ops = []
